@@ -4024,6 +4024,16 @@ func (p *Posix) CopyObject(ctx context.Context, input s3response.CopyObjectInput
 		}
 		version = backend.GetPtrFromString(string(vId))
 
+		// The REPLACE directive drops the object meta properties
+		// which are not provided again
+		for _, hdr := range []string{contentTypeHdr, contentEncHdr, contentDispHdr,
+			contentLangHdr, cacheCtrlHdr, expiresHdr} {
+			err := p.meta.DeleteAttribute(dstBucket, dstObject, hdr)
+			if err != nil && !errors.Is(err, meta.ErrNoSuchKey) {
+				return nil, fmt.Errorf("delete object meta property %q: %w", hdr, err)
+			}
+		}
+
 		// Store the provided object meta properties
 		err = p.storeObjectMetadata(nil, dstBucket, dstObject,
 			objectMetadata{
